@@ -46,22 +46,22 @@ type VBase struct {
 
 type VRec struct {
 	VBase
-	I    int64             `json:"i"`
-	N    int               `json:"n"`
-	I32  int32             `json:"i32"`
-	F    float64           `json:"f"`
-	S    string            `json:"s"`
-	B    bool              `json:"b"`
-	Raw  []byte            `json:"raw"`
-	Ints []int64           `json:"ints"`
-	Strs []string          `json:"strs"`
-	M    map[string]string `json:"m"`
-	T    time.Time         `json:"t"`
-	P    *VLeaf            `json:"p"`
-	V    VLeaf             `json:"v"`
-	Any  VShape            `json:"any"`
-	Kids []VShape          `json:"kids"`
-	Ps   []*VLeaf          `json:"ps"`
+	I     int64             `json:"i"`
+	N     int               `json:"n"`
+	I32   int32             `json:"i32"`
+	F     float64           `json:"f"`
+	S     string            `json:"s"`
+	B     bool              `json:"b"`
+	Raw   []byte            `json:"raw"`
+	Ints  []int64           `json:"ints"`
+	Strs  []string          `json:"strs"`
+	M     map[string]string `json:"m"`
+	T     time.Time         `json:"t"`
+	P     *VLeaf            `json:"p"`
+	V     VLeaf             `json:"v"`
+	Any   VShape            `json:"any"`
+	Kids  []VShape          `json:"kids"`
+	Ps    []*VLeaf          `json:"ps"`
 	NoTag int64
 }
 
@@ -120,6 +120,42 @@ type VShadow struct {
 func (r *VShadow) Self() *VShadow           { return r }
 func (r *VShadow) Echo(x *VShadow) *VShadow { return x }
 
+// methods with the parameter and result kinds the call glue marshals
+func (r *VRec) Pair(a int64, s string) (int64, string) { return a + r.I, s + r.S }
+func (r *VRec) Fail(code int64) error {
+	if code == 0 {
+		return nil
+	}
+	return vC10Err{code}
+}
+func (r *VRec) RawOf(s string) []byte  { return []byte(s + r.S) }
+func (r *VRec) Half(f float64) float64 { return f / 2 }
+func (r *VRec) Sum(xs []int64) int64 {
+	var t int64
+	for _, x := range xs {
+		t += x
+	}
+	return t + r.I
+}
+func (r *VRec) NumOf(l *VLeaf) int64           { return l.Num }
+func (r *VRec) Swap(a *VLeaf, b *VLeaf) *VLeaf { a.Num, b.Num = b.Num, a.Num; return b }
+func (r *VRec) AreaOf(s VShape) int64          { return s.Area() }
+func (r *VRec) Nothing()                       {}
+
+type vC10Err struct{ code int64 }
+
+func (e vC10Err) Error() string { return "verif: failed on purpose" }
+
+// the map types the converter has cases for
+type VMaps struct {
+	SS map[string]string  `json:"ss"`
+	SF map[string]float64 `json:"sf"`
+	IF map[int64]float64  `json:"if"`
+	SI map[string]VShape  `json:"si"`
+}
+
+func (r *VMaps) Self() *VMaps { return r }
+
 // VFlat has only the field kinds that FillHashFromShadow renders.
 type VFlat struct {
 	A int64   `json:"a"`
@@ -148,6 +184,9 @@ func init() {
 	gsr.RegisterUserdef(&RegisteredType{GenDefMap: true, Factory: func(env *Zlisp, h *SexpHash) (interface{}, error) {
 		return &VFlat{}, nil
 	}}, true, "vflat")
+	gsr.RegisterUserdef(&RegisteredType{GenDefMap: true, Factory: func(env *Zlisp, h *SexpHash) (interface{}, error) {
+		return &VMaps{}, nil
+	}}, true, "vmaps")
 	gsr.RegisterUserdef(&RegisteredType{GenDefMap: true, Factory: func(env *Zlisp, h *SexpHash) (interface{}, error) {
 		return &VDeep{}, nil
 	}}, true, "vdeep")
@@ -1108,4 +1147,192 @@ func vh_C10_history() {
 		}
 	}
 	vReach("history")
+}
+
+// vh_C10_methods: the call glue.  Arguments of every marshalled kind arrive
+// in the Go method with the values the script passed (symbolic), in their
+// positions; every result comes back in its position with its value; a Go
+// error result is an error value the script sees; a wrong argument count, an
+// unknown method, an argument of the wrong kind are refused.
+func vh_C10_methods() {
+	vFormatOpaque(true)
+	env := vC10Env(0)
+	ri := &SexpInt{Val: vInt64("ri")}
+	rs := vC10Str("rs", 2)
+	a, b := &SexpInt{Val: vInt64("a")}, &SexpInt{Val: vInt64("b")}
+	t := vC10Str("t", 2)
+	if _, ok := vC10Run(env, vT(env, `(def o (vrec i:9001 s:9002)) (def l1 (vleaf name:"one" num:9003)) (def l2 (vleaf name:"two" num:9004)) (def ss 9005)`, ri, rs, a, b, t)); !ok {
+		vAssert(false, "record-builds")
+		return
+	}
+	call := func(src string) ([]Sexp, bool) {
+		res, err, p := vEvalString(env, src)
+		if p || err != nil {
+			return nil, false
+		}
+		arr, isArr := res.(*SexpArray)
+		if !isArr {
+			return nil, false
+		}
+		return arr.Val, true
+	}
+	k := vChoice("method", 12)
+	switch k {
+	case 0:
+		out, ok := call(`(_method o Pair: (hget l1 num:) ss)`)
+		vAssert(ok && len(out) == 2, "two-results-come-back-as-two-elements")
+		if ok && len(out) == 2 {
+			x, okx := out[0].(*SexpInt)
+			y, oky := out[1].(*SexpStr)
+			vAssert(okx && oky && x.Val == a.Val+ri.Val && y.S == t.S+rs.S, "arguments-and-results-keep-their-positions-and-values")
+		}
+	case 1:
+		out, ok := call(`(_method o Fail: 0)`)
+		vAssert(ok && len(out) == 1 && out[0] == SexpNull, "nil-error-result-is-nil")
+	case 2:
+		out, ok := call(`(_method o Fail: 7)`)
+		vAssert(ok && len(out) == 1, "error-result-comes-back")
+		if ok && len(out) == 1 {
+			_, isErr := out[0].(*SexpError)
+			vAssert(isErr, "go-error-result-is-an-error-value")
+		}
+	case 3:
+		out, ok := call(`(_method o RawOf: ss)`)
+		vAssert(ok && len(out) == 1, "byte-slice-result-comes-back")
+		if ok && len(out) == 1 {
+			r, isRaw := out[0].(*SexpRaw)
+			vAssert(isRaw && string(r.Val) == t.S+rs.S, "byte-slice-result-holds-the-bytes")
+		}
+	case 4:
+		out, ok := call(`(_method o Half: 5.0)`)
+		vAssert(ok && len(out) == 1, "float-result-comes-back")
+		if ok && len(out) == 1 {
+			f, isF := out[0].(*SexpFloat)
+			vAssert(isF && f.Val == 2.5, "float-argument-and-result-exact")
+		}
+	case 5:
+		out, ok := call(`(_method o Sum: [(hget l1 num:) (hget l2 num:) 1])`)
+		vAssert(ok && len(out) == 1, "slice-argument-accepted")
+		if ok && len(out) == 1 {
+			x, okx := out[0].(*SexpInt)
+			vAssert(okx && x.Val == a.Val+b.Val+1+ri.Val, "slice-argument-arrives-element-by-element")
+		}
+	case 6:
+		out, ok := call(`(_method o NumOf: l2)`)
+		vAssert(ok && len(out) == 1, "record-argument-accepted")
+		if ok && len(out) == 1 {
+			x, okx := out[0].(*SexpInt)
+			vAssert(okx && x.Val == b.Val, "record-argument-arrives-as-its-struct")
+		}
+	case 7:
+		out, ok := call(`(_method o Swap: l1 l2)`)
+		vAssert(ok && len(out) == 1, "two-record-arguments-accepted")
+		if ok && len(out) == 1 {
+			h, isH := out[0].(*SexpHash)
+			vAssert(isH && h.TypeName == "vleaf", "struct-result-is-a-record-of-its-type")
+			if isH {
+				n, e1 := h.HashGet(env, env.MakeSymbol("num"))
+				nm, e2 := h.HashGet(env, env.MakeSymbol("name"))
+				ni, okn := n.(*SexpInt)
+				ns, oks := nm.(*SexpStr)
+				// Swap returns its second argument after exchanging the numbers
+				vAssert(e1 == nil && e2 == nil && okn && oks && ni.Val == a.Val && ns.S == "two", "record-arguments-keep-their-positions")
+			}
+		}
+	case 8:
+		// a record for an interface-typed *parameter*: the statement speaks of
+		// interface-typed fields only; refused or right, never wrong
+		out, ok := call(`(_method o AreaOf: l1)`)
+		if ok {
+			vAssert(len(out) == 1, "one-result")
+			if len(out) == 1 {
+				x, okx := out[0].(*SexpInt)
+				vAssert(okx && x.Val == a.Val, "interface-parameter-receives-the-registered-struct")
+			}
+		}
+	case 9:
+		out, ok := call(`(_method o Nothing:)`)
+		vAssert(ok && len(out) == 0, "method-without-results-yields-an-empty-array")
+	case 10:
+		for _, src := range []string{`(_method o Pair: 1)`, `(_method o Pair: 1 "x" 2)`, `(_method o Nothing: 1)`, `(_method o NoSuchMethod:)`, `(_method o pair: 1 "x")`} {
+			_, err, p := vEvalString(env, src)
+			vAssert(!p, "no-panic-escapes")
+			vAssert(p || err != nil, "wrong-count-or-unknown-method-is-refused")
+		}
+	case 11:
+		for _, src := range []string{`(_method o Pair: "x" 1)`, `(_method o Half: "x")`, `(_method o Sum: [1 "a"])`, `(_method o NumOf: 5)`, `(_method o NumOf: (vbox w:1))`, `(_method o AreaOf: (vrec i:1))`, `(_method o AreaOf: 5)`} {
+			_, err, p := vEvalString(env, src)
+			vAssert(!p, "no-panic-escapes")
+			vAssert(p || err != nil, "argument-of-the-wrong-kind-is-refused")
+		}
+	}
+	res, err2, p2 := vEvalString(env, `(+ 1 2)`)
+	r3, isInt := res.(*SexpInt)
+	vAssert(!p2 && err2 == nil && isInt && r3.Val == 3, "interpreter-usable-afterwards")
+	vC04AtRest(env, "after-method-call")
+	vReachIdx("method", k, 12)
+}
+
+// vh_C10_maps: map-typed fields (string->string, string->float64,
+// int64->float64, string->interface holding a registered struct) filled from
+// hashes with symbolic values; a value the map's element type cannot hold is
+// refused.
+func vh_C10_maps() {
+	vFormatOpaque(true)
+	env := vC10Env(0)
+	k := vChoice("case", 6)
+	sv := vC10Str("sv", 2)
+	fv := &SexpFloat{Val: vFloat64("fv")}
+	vAssume(fv.Val == fv.Val)
+	iv := &SexpInt{Val: vInt64("iv")}
+	vAssume(uint64(iv.Val+(1<<52)) <= (1 << 53))
+	n := &SexpInt{Val: vInt64("n")}
+	var text string
+	switch k {
+	case 0:
+		text = `(def x (vmaps ss:(hash a:"one" b:9001)))`
+	case 1:
+		text = `(def x (vmaps sf:(hash a:9002 b:9003)))`
+	case 2:
+		text = `(def x (vmaps if:(hash 1 9002 2 9003)))`
+	case 3:
+		text = `(def x (vmaps si:(hash a:(vleaf name:"in" num:9004) b:(vbox w:9004))))`
+	case 4:
+		text = `(def x (vmaps ss:(hash a:5)))`
+	case 5:
+		text = `(def x (vmaps sf:(hash a:"str")))`
+	}
+	if _, ok := vC10Run(env, vT(env, text, sv, fv, iv, n)); !ok {
+		vAssert(false, "record-builds")
+		return
+	}
+	_, err, p := vEvalString(env, `(togo x)`)
+	vAssert(!p, "no-panic-escapes")
+	if k >= 4 {
+		vAssert(p || err != nil, "map-value-of-the-wrong-kind-is-refused")
+		vReachIdx("maps-case", k, 6)
+		return
+	}
+	vAssert(!p && err == nil, "record-with-a-map-field-converts")
+	if p || err != nil {
+		return
+	}
+	g, isM := vC10Hash(env, "x").GoShadowStruct.(*VMaps)
+	if !isM || g == nil {
+		vAssert(false, "record-has-its-go-struct-attached")
+		return
+	}
+	switch k {
+	case 0:
+		vAssert(len(g.SS) == 2 && g.SS["a"] == "one" && g.SS["b"] == sv.S, "string-map-filled-exactly")
+	case 1:
+		vAssert(len(g.SF) == 2 && g.SF["a"] == fv.Val && g.SF["b"] == float64(iv.Val), "float-map-filled-exactly")
+	case 2:
+		vAssert(len(g.IF) == 2 && g.IF[1] == fv.Val && g.IF[2] == float64(iv.Val), "int-keyed-map-filled-exactly")
+	case 3:
+		l, isL := g.SI["a"].(*VLeaf)
+		b, isB := g.SI["b"].(*VBox)
+		vAssert(len(g.SI) == 2 && isL && isB && l.Num == n.Val && l.Name == "in" && b.W == n.Val, "interface-map-holds-the-registered-structs")
+	}
+	vReachIdx("maps-case", k, 6)
 }
